@@ -370,9 +370,8 @@ def check (c):
     cols = (0, 1, 2) if mA.media is not None else (2,)
     mx = gA [:, 2].max ()
     for col in cols:
-        sel = (gA [:, col] > mx - 40) | (gB [:, col] > mx - 40)
-        dd = float (np.abs (gA [:, col] - gB [:, col]) [sel].max ()) if sel.any () else 0.0
-        judge ('gain', dd + 1e-300, 0.01, 'gain in rotated directions differs by %.4f dB (column %d)' % (dd, col))
+        dd, dcur = observe.gain_dev_beam_db (np.append (gA [:, col], mx), np.append (gB [:, col], mx), d)
+        judge ('gain', dd + 1e-300, 0.01 + dcur + observe.gain_slack_db (mA, d), 'gain in rotated directions differs by %.4f dB (column %d)' % (dd, col))
     res_keys = ('currents', 'impedance', 'impedance.routes', 'gain')
     if viol and all (v ['key'] in res_keys for v in viol) and all (v.get ('measured', np.inf) <= 4 * v.get ('allowed', 0) for v in viol):
         # known finding: the order of the Gauss rule is chosen by t = (d0 + d3) / segment length against 6 and 10; on a
